@@ -126,3 +126,12 @@ Proof.
   - intros H1 H2. assert (A : docend <= avail) by (unfold avail; lia).
     apply N.leb_le in A. rewrite A. apply consumed_loop_ge. now apply N.leb_le.
 Qed.
+
+Theorem consumed_index_spec limit size :
+  (Z.of_N (consumed_index limit size) <= eff_limit limit)%Z /\ consumed_index limit size <= size.
+Proof.
+  pose proof (eff_limit_pos limit) as Hp. unfold consumed_index.
+  destruct (limit_size_rejects limit (Z.of_N size)) eqn:E; [lia|].
+  assert (~ (eff_limit limit < Z.of_N size)%Z) by (intro H; apply limit_size_spec in H; congruence).
+  lia.
+Qed.
